@@ -1,5 +1,6 @@
 import InjModel.Model.X86
 import Driver.Util
+import Driver.Gen
 namespace Driver
 open Inj Inj.X86
 
@@ -64,6 +65,7 @@ def handleX86Br (args obs : List String) : Verdict :=
       let model := genBranch mode ori target
       match ob with
       | ["panic"] =>
+        Gen.withGen' (Gen.x86Branch mode ori target none) <|
         { agree := (match model with | Res.panic _ => true | _ => false), propOk := true, branch := "panic",
           detail := (match model with | Res.ok bs => "model=ok:" ++ hexBytes bs | _ => "") }
       | ["ok", bh] =>
@@ -74,6 +76,7 @@ def handleX86Br (args obs : List String) : Verdict :=
           let pOk := (match dest with | some (d, _) => d == target | none => false)
           let br := if bs.length = 5 then "short" else if bs.length = 12 then "long" else "other"
           let ag := (match model with | Res.ok mb => mb == bs | _ => false)
+          Gen.withGen' (Gen.x86Branch mode ori target (some bs)) <|
           { agree := ag, propOk := pOk, branch := br,
             detail := (if ag then "" else "model=" ++ (match model with | Res.ok mb => hexBytes mb | Res.panic w => "panic:" ++ w)) ++
                       (if pOk then "" else " dest=" ++ (match dest with | some (d, _) => hex d | none => "undecodable")) }
@@ -108,6 +111,7 @@ def handleX86Bool (args obs : List String) : Verdict :=
                     calleeSaved.all (fun i => c.gpr i == c0.gpr i)
         | none => false
       let full := match r with | some c => c.gpr 0 == (if b then 1 else 0) | none => false
+      Gen.withGen' (Gen.x86Bool b (bs.take 8)) <|
       { agree := model == bs.take 8, propOk := pOk,
         branch := (if b then "true" else "false") ++ (if pOk && !full then "+upper-bits-kept" else ""),
         detail := (if model == bs.take 8 then "" else "model=" ++ hexBytes model) ++
